@@ -165,7 +165,7 @@ SRunCalls(art, refs, calls, i) ==
 (* (timestamp verification mandatory).                                     *)
 (* in = [api : "oci"|"blob", keySpec, format, signer : "local"|"localTSA"| *)
 (*       "pluginRaw"|"pluginEnvelope", fields : Seq(extra descriptor       *)
-(*       fields present), meta : "none"|"one"|"two", expiry : Nat (s),     *)
+(*       fields present), meta : "none"|"one"|"two"|"odd" (keys and values that differ only by surrounding white space or letter case), expiry : Nat (s),     *)
 (*       blob : size class, cmt : content media type atom]                 *)
 (***************************************************************************)
 KeySpecs == {"EC-256", "EC-384", "EC-521", "RSA-2048", "RSA-3072", "RSA-4096"}
